@@ -27,7 +27,7 @@ impl Property for C21Prop {
         mode_name(mode)
     }
     fn rule(&self) -> &'static str {
-        "one run = two honest replicas with up to ~100 operations per side, transport capacity drawn from {1,2,4,16,64,512,unbounded} messages, in a quarter of the runs one concurrent prune of a log, no other fault; non-trivial = both sides have something to send; distinct = distinct trace fingerprint"
+        "one run = two honest replicas with up to ~100 operations per side (one run in forty on the DES engine: a single log of 1100-1400 operations), transport capacity drawn from {1,2,4,16,64,512,unbounded} messages, in a quarter of the runs one concurrent prune of a log, no other fault; non-trivial = both sides have something to send; distinct = distinct trace fingerprint"
     }
     fn components_real(&self) -> Vec<&'static str> {
         vec!["p2panda_sync::protocols::LogSync (select! send/receive loop)", "p2panda_sync::protocols::TopicLogSync", "p2panda_store::SqliteStore (StepExec modes)"]
@@ -48,11 +48,22 @@ impl Property for C21Prop {
             (Engine::Step, true) => 16,
             (Engine::Step, false) => 8,
         };
+        // "Any amount of data": now and then one log of 1100-1400 operations (more than the event
+        // channel, the de-duplication buffer or any other bounded structure of a session holds).
+        let bulk = engine == Engine::Des && ctx::chance("bulk", 1, 40);
+        if bulk {
+            ctx::fault("bulk_volume(>1024 operations in one log)");
+        }
+        let world = if bulk {
+            WorldParams { max_authors: 1, max_logs_per_author: 1, max_ops_per_log: 1400, prune_num: 0, body_kinds: 1, min_ops_per_log: 1100 }
+        } else {
+            WorldParams { max_authors: 3, max_logs_per_author: 2, max_ops_per_log: max_ops, prune_num: 0, body_kinds: 3, min_ops_per_log: 0 }
+        };
         let cfg = SyncCfg {
             engine,
             kind,
             capacity,
-            world: WorldParams { max_authors: 3, max_logs_per_author: 2, max_ops_per_log: max_ops, prune_num: 0, body_kinds: 3 },
+            world,
             // Termination must not depend on the store standing still either: in a quarter of the
             // runs one log is pruned concurrently (the fault model of C20).
             interference: ctx::chance("interference", 1, 4),
